@@ -273,6 +273,15 @@ def type_tables(ctx):
                             bad = 'COSyncAdd arguments %s' % adds[0][2][1:]
                         if len(rems) != (1 if old_sync else 0):
                             bad = 'a previously synchronous PDO is removed from the SYNC table %d times' % len(rems)
+                        # registration and removal address THIS side's table (TX for TPDOs, RX for RPDOs): with the other
+                        # side's flag the PDO of the same number on the other side is (de)registered instead
+                        side = 0x01 if f == 'COTPdoReset' else 0x02
+                        for c_ in adds + rems:
+                            if len(c_[2]) > 2 and c_[2][2] is not None and c_[2][2] != side:
+                                bad = '%s addresses SYNC table side %s, required %s (%s)' % (
+                                    c_[1], c_[2][2], side, 'CO_SYNC_FLG_TX' if side == 1 else 'CO_SYNC_FLG_RX')
+                            if len(c_[2]) > 1 and c_[2][1] is not None and c_[2][1] != 1:
+                                bad = '%s is called for PDO number %s, required %d' % (c_[1], c_[2][1], 1)
                         if rems and adds and t.call_names().index('COSyncRemove') > t.call_names().index('COSyncAdd'):
                             bad = 'removal after the new registration'
                         if fl is None or bool(fl & sflag) != bool(want_sync):
@@ -739,3 +748,52 @@ _run_before_layout = run
 def run(ctx):
     _run_before_layout(ctx)
     tpdo_layout(ctx)
+
+
+def sync_rx_table(ctx):
+    """COSyncRx buffers a synchronous RPDO for the next SYNC: the frame goes into the slot of the registered RPDO with the
+    same identifier - all eight data bytes, the DLC and the pending marker - WHETHER OR NOT a frame is already pending
+    there (the last reception before the SYNC is the one that counts), and a frame for another identifier touches
+    nothing."""
+    m = ctx.m
+    f = 'COSyncRx'
+    m.need(f)
+    props = ['C13']
+    nslots = m.extent('CO_SYNC', 'RPdo', 4)
+    for (fid, pend) in ((0x201, 0), (0x201, 0x201), (0x201, 0x7FF), (0x202, 0), (0x202, 0x201)):
+        pe = PEval(m, f)
+        pe.record_sets = False
+        pe.store_filter = lambda k, fld: fld is not None and fld[0] in ('CO_IF_FRM', 'CO_SYNC')
+        inp = {'sync': 1, 'frm': 1, 'frm->Identifier': fid, 'frm->DLC': 8, 'sync->RPdo[0]': 1, 'sync->RPdo[0]->Identifier': 0x201,
+               'sync->RFrm[0].Identifier': pend}
+        for i in range(1, nslots):
+            inp['sync->RPdo[%d]' % i] = 0
+        trs = pe.run(inp)
+        site = 'COSyncRx frame %Xh for a slot registered with 201h, pending marker %Xh' % (fid, pend)
+        bad = None
+        if not trs:
+            bad = 'no path'
+        for t in trs:
+            st = dict((e[1], e[2]) for e in t.stores())
+            if fid == 0x201:
+                missing = [n for n in range(8) if 'sync->RFrm[0].Data[%d]' % n not in st]
+                if missing:
+                    bad = 'data bytes %s of the received frame are not buffered%s' % (missing, ' although the identifier matches (a frame is '
+                                                                                      'already pending: the later reception is dropped)' if pend else '')
+                elif st.get('sync->RFrm[0].DLC') != 8 or st.get('sync->RFrm[0].Identifier') != 0x201:
+                    bad = 'DLC / pending marker after buffering: %s / %s' % (st.get('sync->RFrm[0].DLC'), st.get('sync->RFrm[0].Identifier'))
+            elif st:
+                bad = 'a frame for another identifier writes %s' % sorted(st)[:3]
+        if bad:
+            ctx.ob(props, 'RF1-sync-rx', f, site, None)
+            ctx.find(props, 'RF1-sync-rx', f, 'rx:%X:%X' % (fid, pend), m.loc(f, m.funcs[f].line), '%s: %s' % (site, bad))
+        else:
+            ctx.ob(props, 'RF1-sync-rx', f, site, 'buffered completely' if fid == 0x201 else 'ignored')
+
+
+_run_before_syncrx = run
+
+
+def run(ctx):
+    _run_before_syncrx(ctx)
+    sync_rx_table(ctx)
